@@ -278,6 +278,10 @@ def _do(op, W, viol_sink):
             return ("foreign", "raised")
         except Exception as e:  # noqa: any other exception is still not a number
             return ("foreign", "raised:" + type(e).__name__)
+        if W.two_tasks and k in ("foreign_lshift_read", "foreign_unit_call") and fhex(got) in W.readings[i].values():
+            # another task converted the quantity back to a unit of its own dimension between the two steps of this
+            # operation: the number read is a reading in its own dimension, not a foreign one (racy by construction)
+            return ("foreign", "own-dimension reading after a racing conversion")
         viol_sink("foreign.read_yields_number", k, W.dim[i], f"q{i} ({W.dim[i]}) read in {op['u']} returned {got!r}")
         return ("foreign", "number")
     if k == "libcall":
